@@ -262,6 +262,7 @@ impl IntoIterator for BackoffStrategy {
             strategy_type: self.strategy_type,
             current_attempt: 1,
             state: self.state,
+            exhausted: false,
         }
     }
 }
@@ -271,6 +272,7 @@ pub struct BackoffStrategyIter {
     strategy_type: Strategy,
     state: BackoffStrategyState,
     current_attempt: u32,
+    exhausted: bool,
 }
 
 impl Iterator for BackoffStrategyIter {
@@ -282,17 +284,24 @@ impl Iterator for BackoffStrategyIter {
         let max_attempts = self.state.max_attempts;
         let current_attempt = self.current_attempt;
 
-        if current_attempt > max_attempts {
+        if self.exhausted || current_attempt > max_attempts {
             return None;
         }
 
+        // Delays that would overflow saturate instead of panicking or wrapping around
         let mut next_duration = match self.strategy_type {
-            Strategy::Linear => step * current_attempt,
+            Strategy::Linear => step.saturating_mul(current_attempt),
             Strategy::Constant => step,
-            Strategy::Exponential(factor) => step.mul_f64(factor.pow(current_attempt - 1) as f64),
+            Strategy::Exponential(factor) => saturating_mul_u64(
+                step,
+                factor.checked_pow(current_attempt - 1).unwrap_or(u64::MAX),
+            ),
         };
 
-        self.current_attempt += 1;
+        match current_attempt.checked_add(1) {
+            Some(next_attempt) => self.current_attempt = next_attempt,
+            None => self.exhausted = true,
+        }
 
         if let Some(max) = max_duration {
             next_duration = next_duration.min(max);
@@ -305,6 +314,19 @@ impl Iterator for BackoffStrategyIter {
         };
 
         Some(next)
+    }
+}
+
+/// Multiplies a [Duration] by a [u64], saturating at [Duration::MAX].
+fn saturating_mul_u64(duration: Duration, rhs: u64) -> Duration {
+    const NANOS_PER_SEC: u128 = 1_000_000_000;
+
+    match duration.as_nanos().checked_mul(rhs as u128) {
+        Some(nanos) if nanos / NANOS_PER_SEC <= u64::MAX as u128 => Duration::new(
+            (nanos / NANOS_PER_SEC) as u64,
+            (nanos % NANOS_PER_SEC) as u32,
+        ),
+        _ => Duration::MAX,
     }
 }
 
